@@ -570,6 +570,19 @@ func Yield(site string) {
 	}
 }
 
+// AtomicPoint is inserted before every statement that operates on a sync/atomic value (T8): lock-free
+// code synchronises there, so those are its preemption points.
+func AtomicPoint() {
+	s := active.Load()
+	if s == nil || s.free || s.aborting.Load() {
+		return
+	}
+	if t := s.me(); t == nil || t != s.cur {
+		return
+	}
+	s.Yield("atomic")
+}
+
 // Woke is inserted after every sleep and channel operation: a task that was
 // released by the clock or by a rendezvous parks again before it touches
 // anything, so that the scheduler orders it.
